@@ -27,6 +27,14 @@ TCP_AS = ["kernel TCP semantics (FIN vs RST, half-close, loopback ordering) and 
 TCP_CAMP = dict(engine="tcp", n=n(25, 500), netns=True)
 
 CHECKS = {
+    "C20": dict(
+        level="proof",
+        campaigns=[dict(engine="ipinfo", n=n(3000, 100000)), dict(engine="metrics", n=n(150, 3000))],
+        trusted_base=["model Model/IPInfo.lean of ipinfo/ipinfo.go tied by the `ipinfo` differential campaign; Model/Metrics.lean of prometheus/metrics.go tied by the `metrics` campaign (real collectors, private registry, fake database, stubbed clock via the verif hook)",
+                      "Gen/MetricTable.lean: collectors, label names and provenance classes of every label value (extract/metrictable.go, typed backward tracing) regenerated on every run; the provenance analysis is trusted and backed by the exposition scan"],
+        assumptions=["'cannot be parsed' is what Go's net.SplitHostPort/ParseIP reject (after dropping an IPv6 zone); the parser itself is outside the model",
+                     "access-key ids, country/ASN data and the server's own listen address are not client addresses"],
+    ),
     "C02": dict(level="proof", campaigns=[TCP_CAMP], trusted_base=TCP_TB, assumptions=TCP_AS),
     "C06": dict(level="proof", campaigns=[TCP_CAMP], trusted_base=TCP_TB, assumptions=TCP_AS),
     "C15": dict(level="proof", campaigns=[TCP_CAMP], trusted_base=TCP_TB, assumptions=TCP_AS + ["a handler panic would skip AddClosed: conditional on C18"]),
